@@ -681,6 +681,12 @@ func runC15(c *Ctx) {
 	// type switch defaults
 	for _, name := range []string{"fmtInt", "fmtString", "fmtBool"} {
 		fn := m.lookupFunc("kfmt", name)
+		if fn == nil && name != "fmtInt" {
+			// a per-verb helper that no property names may be inlined into Fprintf;
+			// its default arm is then not examined separately
+			c.note("kfmt.%s not found (inlined into Fprintf?): its wrong-type default is not checked separately", name)
+			continue
+		}
 		if fn == nil {
 			c.unresolved("C15.R4", "kfmt."+name)
 			continue
